@@ -79,6 +79,18 @@ Theorem C01_allocated_fresh : forall m,
 Proof. exact tf_alloc_fresh. Qed.
 Print Assumptions C01_allocated_fresh.
 
+(* Frame property of the model: a run that writes several files (into one destination package or not) is modelled file
+   by file - the skeleton, in particular the import set and the qualifiers, of file number k is a function of that file's
+   own template data and of nothing else; there is no state shared between the registries of two files.  The harness
+   checks that the implementation has this property: for every file of a several-files-per-package run the data model
+   must be what the run that writes this file alone produces, and every file is checked against its own model. *)
+Theorem C01_files_independent : forall (ot : topts) (om : mopts) (fs : list fdata) k f,
+  nth_error fs k = Some f ->
+  nth_error (map (testify_skel ot) fs) k = Some (testify_skel ot f) /\
+  nth_error (map (matryer_skel om) fs) k = Some (matryer_skel om f).
+Proof. intros ot om fs k f H. split; now apply map_nth_error. Qed.
+Print Assumptions C01_files_independent.
+
 (* template/var.go, varName: the name generated for an unnamed parameter of ANY named type is never on the
    reserved list - never `mock` / `callInfo` (identifiers of the templates themselves), a keyword or a basic type
    name.  The harness compares [reserved_names] with the list parsed from var.go and [gen_name] with the names
